@@ -73,6 +73,14 @@ func Set() []Value {
 			add("[" + strconv.FormatFloat(g, 'g', -1, 64) + "]")
 		}
 	}
+	// member names of every kind in both orders (ASCII, escapes, 2- and 3-byte UTF-8, BMP characters above the surrogate range and
+	// supplementary-plane characters, whose UTF-16 order differs from their UTF-8 / code point order)
+	names := []string{``, `a`, `aa`, `A`, `1`, `10`, `\u0000`, `\n`, `\"`, `\\`, `é`, `€`, "דּ", "דּa", "￿", "\U0001f600", "\U0001f600a", "\U00010000"}
+	for i, a := range names {
+		for _, b := range names[i+1:] {
+			add(`{"`+a+`":1,"`+b+`":"v"}`, `{"`+b+`":"v","`+a+`":1}`)
+		}
+	}
 	add(`{"publicKey":[{"id":"k1","type":"T"}],"service":[]}`, fmt.Sprintf(`{"service":[],"publicKey":[{"type":"T","id":%q}]}`, "k1"))
 	add(`{"publicKey":[{"id":"k2","type":"T"}],"service":[]}`)
 	add(`{"publicKey":[{"id":"k1","type":"T"}]}`)
